@@ -124,6 +124,7 @@ func runC18(c *Ctx) {
 				continue
 			}
 			tb := newTB()
+			kf := factsOf(fn)
 			chk := func(in ssa.Instruction, m, k ssa.Value, what string) {
 				mt := tb.of(m, 0)
 				if !(mt.Op == "field" && (mt.Sym == "peerScore" || mt.Sym == "blockedAddrs")) {
@@ -131,7 +132,7 @@ func runC18(c *Ctx) {
 				}
 				n++
 				kinds[FuncKey(fn)+" "+what+" "+mt.Sym] = true
-				kt := tb.of(k, 0)
+				kt := kf.Term(k) // read in the function's own vocabulary also when the access sits in a helper
 				ok := kt.Op == "call" && kt.Sym == "(net.IP).String"
 				if !ok && (kt.Op == "extract" && kt.Args[0].Op == "next") {
 					ok = true // key obtained by ranging over the same map
@@ -349,10 +350,9 @@ func runC18(c *Ctx) {
 	// ---- R11 coverage
 	{
 		for _, fn := range []*ssa.Function{onReq, onResp} {
-			ff := factsOf(fn)
 			decErr, unknown := false, false
-			for i, e := range ff.Edges {
-				f := ff.Facts[i]
+			for _, de := range deepEdges(fn) { // reading and checking may be a helper's job
+				e, f := de.E, de.F
 				leadsToBan := func() bool {
 					first := e.To.Instrs[0]
 					isBan := func(in ssa.Instruction) bool {
@@ -435,5 +435,48 @@ func runC18(c *Ctx) {
 			}
 		}
 		c.MinInstances("C18.R11 penalty-is-conditional", n, 8)
+	}
+
+	// ---- R13 the per-interval message counts really are per interval: on every tick every
+	// procedure's counter table is reset — an iteration of the reset loop cannot skip it (a
+	// skipped reset lets counts span two intervals, and traffic within the limit is penalised)
+	if h := c.Anchor("pkg/p2p.rateLimiterHandler"); h != nil {
+		ws := fieldWrites(h, "p2p.rpcMessageCounter", "counters")
+		loops := naturalLoops(h)
+		n := 0
+		for _, w := range ws {
+			// where the handler does it: the store itself, or the call through which a helper
+			// (counter.reset()) that always performs it is reached
+			at := []ssa.Instruction{w}
+			if w.Parent() != h {
+				at = nil
+				if completesThrough(w) {
+					for _, ch := range helperChains(h, w.Parent()) {
+						at = append(at, ch[0])
+					}
+				}
+			}
+			for _, site := range at {
+				// the innermost loop around the reset
+				var inner *loopInfo
+				for _, li := range loops {
+					if li.Blocks[site.Block()] && (inner == nil || len(li.Blocks) < len(inner.Blocks)) {
+						inner = li
+					}
+				}
+				if inner == nil {
+					continue
+				}
+				n++
+				every := true
+				for _, l := range inner.Latch {
+					if !(site.Block() == l || site.Block().Dominates(l)) {
+						every = false
+					}
+				}
+				c.Require("C18.R13 counters-reset-every-tick", FuncKey(h)+": reset of rpcMessageCounter.counters", p.InstrPos(w), "every iteration of the reset loop resets its counter table (none is skipped)", every, "")
+			}
+		}
+		c.MinInstances("C18.R13 counters-reset-every-tick", n, 1)
 	}
 }
